@@ -257,7 +257,9 @@ def make_world(rng):
 
 # ================================================================= histories
 MODES = [("bool", "first", False), ("bool", "all", False), ("list", "first", False), ("list", "all", False),
-         ("list", "first", True), ("list", "all", True), ("stream", "first", False)]
+         ("list", "first", True), ("list", "all", True), ("stream", "first", False), ("stream", "all", True),
+         ("bool", "all", True), ("bool", "first", True), ("stream", "all", False), ("stream", "first", True),
+         ("list", "all", False), ("list", "all", True)]
 
 
 def _match_op(rng, entry, inputs_asm, inputs_bin, mode=None, input_override=None):
